@@ -7,7 +7,7 @@
    [em] ranges over the three encoding modes, [more] over more_available, codes over all lists. *)
 From Coq Require Import ZArith List Bool.
 Import ListNotations.
-From Urwid Require Import PyBase escape_table_gen KeyInput KeyInputProofs KeyInputSgr.
+From Urwid Require Import PyBase escape_table_gen KeyInput KeyInputProofs KeyInputSgr KeyInputTrie KeyInputWide.
 Open Scope Z_scope.
 
 (* ---------- clause 1: terminates, consumes strictly left to right ---------- *)
@@ -38,6 +38,42 @@ Theorem trie_builds : trie_build input_sequences = Ok input_trie.
 Proof. exact trie_build_ok. Qed.
 Print Assumptions trie_builds.
 
+(* The trie IS the declared table.  For ANY table on which KeyqueueTrie.__init__/add succeeds and ALL
+   key lists: the table is prefix-free (no empty sequence, none a prefix of or equal to another), so at
+   most one entry is a prefix of the keys ("longest match" = the only match) and
+   - if entry (s, n) is a prefix of the keys, get_recurse gives that entry's result on the remaining keys
+     (the key name, or the mouse / sgrmouse reader);
+   - if no entry is a prefix of the keys, get_recurse wants more input exactly when the keys are a proper
+     prefix of some entry (or there are no keys at all) and otherwise answers None;
+   - a leaf is only ever reached through an entry that is a prefix of the keys. *)
+Theorem trie_lookup_is_table_lookup :
+  forall tbl t, trie_build tbl = Ok t ->
+    table_prefix_free tbl /\
+    forall keys more,
+      (forall s n, In (s, n) tbl -> is_prefix s keys = true ->
+         get_recurse t keys more = leaf_result n (skipn (length s) keys) more) /\
+      ((forall s n, In (s, n) tbl -> is_prefix s keys = false) ->
+         get_recurse t keys more =
+           if existsb (fun e => pprefix keys (fst e)) tbl || match keys with [] => true | _ => false end
+           then (if more then OMore else OOk None) else OOk None) /\
+      (forall n rest, tlookup t keys = LLeaf n rest -> exists s, In (s, n) tbl /\ keys = s ++ rest).
+Proof. exact trie_lookup_is_table_lookup_gen. Qed.
+Print Assumptions trie_lookup_is_table_lookup.
+
+(* instance: the table generated from escape.py is prefix-free, and a key name reported by its trie is
+   always the name of a table entry whose sequence was just consumed (no invented names, no other
+   sequence decodes to a key) *)
+Theorem input_table_prefix_free : table_prefix_free input_sequences.
+Proof. exact (proj1 (trie_lookup_is_table_lookup_gen _ _ input_trie_built)). Qed.
+Print Assumptions input_table_prefix_free.
+
+Theorem key_names_come_from_table :
+  forall keys more name rest,
+    get_recurse input_trie keys more = OOk (Some (Key name, rest)) ->
+    exists s, In (s, name) input_sequences /\ keys = s ++ rest.
+Proof. exact key_names_come_from_table_proof. Qed.
+Print Assumptions key_names_come_from_table.
+
 (* ---------- clause 1: without raising ---------- *)
 
 (* every non-empty byte string, every encoding, more_available or not: process_keyqueue returns
@@ -45,7 +81,7 @@ Print Assumptions trie_builds.
    front of a cursor position report raised AttributeError; the corpus keeps those inputs.) *)
 Theorem never_raises :
   forall em c more e, Forall is_byte c -> c <> [] -> process_keyqueue em c more <> OErr e.
-Proof. intros em c more e _. exact (process_no_err em more c e). Qed.
+Proof. intros em c more e Hb Hne. exact (process_no_err em more c e Hb Hne). Qed.
 Print Assumptions never_raises.
 
 (* a hooked Screen never raises, for every schedule of reads and completion alarms *)
@@ -53,7 +89,7 @@ Theorem screen_never_raises :
   forall em ops st,
     Forall is_byte (st ++ concat (map feed_bytes ops)) ->
     snd (run em st ops) = None.
-Proof. intros em ops st _. exact (run_no_err em ops st). Qed.
+Proof. exact run_no_err. Qed.
 Print Assumptions screen_never_raises.
 
 (* ---------- clause 2: fragmentation ---------- *)
@@ -227,6 +263,42 @@ Theorem utf8_char_decodes :
 Proof. exact utf8_char_decodes_proof. Qed.
 Print Assumptions utf8_char_decodes.
 
+(* ---------- the non-UTF-8 encoding modes ---------- *)
+(* In "wide" mode the decision is made by str_util.within_double_byte; the model uses its py2v
+   translation (Gen/str_loops_gen.v), and its value on every one- and two-byte string is computed
+   inside Coq (65536 pairs) on every run. *)
+
+(* a high byte followed by any byte: ONE two-byte character exactly when the pair is a double-byte
+   character (trail >= 0x80, or lead >= 0x81 and trail in 0x40..0x7E), else the high byte alone and
+   the following byte left untouched *)
+Theorem wide_pair_decodes :
+  forall a b rest more, 128 <= a < 256 -> 0 <= b < 256 ->
+    process_keyqueue Wide (a :: b :: rest) more =
+      if dbcs_trail a b then OOk ([Key [a; b]], rest) else OOk ([Key [a]], b :: rest).
+Proof. exact wide_pair_decodes_proof. Qed.
+Print Assumptions wide_pair_decodes.
+
+(* a high byte at the end of a read is kept pending; the completion timeout reports it alone *)
+Theorem wide_lead_alone :
+  forall a, 128 <= a < 256 ->
+    process_keyqueue Wide [a] true = OMore /\ process_keyqueue Wide [a] false = OOk ([Key [a]], []).
+Proof. exact wide_lead_alone_proof. Qed.
+Print Assumptions wide_lead_alone.
+
+(* any text of printable ASCII and double-byte characters decodes to one event per character
+   (with fragmentation_invariant: however it is cut into reads) *)
+Theorem wide_text_decodes :
+  forall more ws, forallb wchar_ok ws = true ->
+    parse_loop (length (flat_map wbytes ws)) Wide (flat_map wbytes ws) more [] = PDone (map wevent ws).
+Proof. exact wide_text_decodes_proof. Qed.
+Print Assumptions wide_text_decodes.
+
+(* narrow mode: every high byte is its own character *)
+Theorem narrow_high_byte :
+  forall a rest more, 128 <= a < 256 -> process_keyqueue Narrow (a :: rest) more = OOk ([Key [a]], rest).
+Proof. exact narrow_high_byte_proof. Qed.
+Print Assumptions narrow_high_byte.
+
 (* ---------- non-vacuity: the model computes, the hypotheses are satisfiable ---------- *)
 From Coq Require Import String.
 Example decodes_up_then_x :
@@ -274,6 +346,20 @@ Example esc_before_cursor_position_report :
   process_keyqueue Utf8 [27; 27; 27; 91; 53; 59; 53; 82; 65] true
     = OOk ([Key (s2z "esc"); Key (s2z "esc"); CursorPos 4 4], [65]).
 Proof. vm_compute. auto. Qed.
+
+Example table_lookup_cases :
+  (* an entry is a prefix / the keys are a proper prefix of entries / neither *)
+  get_recurse input_trie [91; 49; 59; 53; 65; 120] true = OOk (Some (Key (s2z "ctrl up"), [120])) /\
+  get_recurse input_trie [91; 49; 59] true = OMore /\ get_recurse input_trie [91; 49; 59] false = OOk None /\
+  get_recurse input_trie [91; 120] true = OOk None /\
+  existsb (fun e => pprefix [91; 49; 59] (fst e)) input_sequences = true.
+Proof. vm_compute. auto. Qed.
+
+Example wide_examples :
+  dbcs_trail 161 234 = true /\ dbcs_trail 129 64 = true /\ dbcs_trail 128 64 = false /\ dbcs_trail 161 32 = false /\
+  forallb wchar_ok [WDouble 176 161; WAscii 97; WDouble 129 64] = true /\
+  within_double_byte [176; 161] 0 1 = Ok 2.
+Proof. vm_compute. auto 10. Qed.
 
 Example timeout_needed_for_lone_esc :
   process_keyqueue Utf8 [27] true = OMore /\ process_keyqueue Utf8 [27] false = OOk ([Key (s2z "esc"%string)], []).
